@@ -381,14 +381,19 @@ func (c *RetryClient) requestContext(ctx context.Context) (context.Context, func
 		return ctx, func() {}
 	}
 	ctx2, cancel := context.WithTimeout(ctx, c.ResponseTimeout)
-	return &requestContext{ctx2}, cancel
+	return &requestContext{Context: ctx2, parent: ctx}, cancel
 }
 
 type requestContext struct {
 	context.Context
+	parent context.Context
 }
 
 func (c *requestContext) Err() error {
+	if err := c.parent.Err(); err != nil {
+		// The caller's context was done; it is not a response timeout.
+		return err
+	}
 	return &RequestTimeoutError{c.Context.Err()}
 }
 
